@@ -12,11 +12,11 @@ CONSTANTS
   MaxV = 4
   MaxFuncs = 2
   MaxSuite = 2
-  MaxDepth = 4
+  MaxDepth = 3
   MaxTop = 2
-  ExtraT = 1
+  ExtraT = 2
   ExtraC = 3
-  ExtraM = 1
+  ExtraM = 2
   Coarse = FALSE
 SPECIFICATION Spec
 INVARIANT TypeOK
